@@ -2449,14 +2449,17 @@ def replay(path):
         print("base SDL (validated first):\n" + d["sdl"] + "\nextension: " + d["extension"])
         base = build_schema(d["sdl"])
         print("base errors:", validate_schema(base))
+        print("defaults coerced on the base before extending:", warm_defaults(base))
         sch = extend_schema(base, parse(d["extension"]), assume_valid_sdl=bool(d.get("assume_valid_sdl")))
     elif via in ("to_kwargs", "to_kwargs-edit"):
-        base = build_prog(d["base_abstract"])
+        dcache = {}
+        base = build_prog(d["base_abstract"], dcache=dcache)
         print("base errors (validated first):", validate_schema(base))
+        print("defaults coerced on the base before deriving (default objects are shared):", warm_defaults(base))
         kw = dict(base.to_kwargs())
         if via == "to_kwargs":
             print("mutant:", json.dumps(d["abstract"])[:2000])
-            m = build_prog(d["abstract"], force_mode=d.get("force_mode"))
+            m = build_prog(d["abstract"], force_mode=d.get("force_mode"), dcache=dcache)
             kw.update(query=m.query_type, mutation=m.mutation_type, subscription=m.subscription_type,
                       types=tuple(m.type_map.values()), directives=m.directives)
         else:
